@@ -1110,7 +1110,7 @@ package vanguard
 //@   modifies
 //@ func (*routeTrie).findTarget
 //@   requires t != nil
-//@   atcall[C06] (*routeTrie).findTarget#2: child == nil || (target == nil && methods == nil)
+//@   atcall[C06] (*routeTrie).findTarget#2: child == nil || (target__1 == nil && methods__1 == nil)
 //@   ensures[C06] r0 != nil ==> r0.verb == verb && (r0.method == method || r0.method == "*")
 //@   modifies
 // insert keeps the invariant for every node of every trie (heap-wide statement, because insert is
